@@ -153,8 +153,6 @@ class PrintUsingFormatter:
             result = sign + result
         else:
             result = result + sign
-            if sign != '-':
-                result = ' ' + result
 
         if len(result) < len(fmt):
             result = ' ' * (len(fmt) - len(result)) + result
